@@ -109,16 +109,16 @@ func strip(sel []KV, n int) []KV {
 	return out
 }
 
-// Store models the staged store.
+// Store models the staged store. Snapshots are kept per view handle (the code numbers them per handle, starting at 0).
 type Store struct {
-	Committed Map         // database contents (all keys, also those outside the root prefix)
-	Staged    Map         // database contents with all staged writes and deletes applied
-	Snaps     map[int]Map // snapshot id -> copy of Staged at that time
-	NextSnap  int
+	Committed Map                 // database contents (all keys, also those outside the root prefix)
+	Staged    Map                 // database contents with all staged writes and deletes applied
+	Snaps     map[int]map[int]Map // handle -> snapshot id -> copy of Staged at that time
+	Next      map[int]int         // handle -> next snapshot id
 }
 
 func NewStore(initial Map) *Store {
-	return &Store{Committed: initial.Clone(), Staged: initial.Clone(), Snaps: map[int]Map{}}
+	return &Store{Committed: initial.Clone(), Staged: initial.Clone(), Snaps: map[int]map[int]Map{}, Next: map[int]int{}}
 }
 
 func (s *Store) Set(view, k, v string) { s.Staged[view+k] = v }
@@ -136,33 +136,62 @@ func (s *Store) Iterate(view, prefix string, limit int, reverse bool) []KV {
 	return s.Staged.IterateIn(view, prefix, limit, reverse)
 }
 
-func (s *Store) Snapshot() int {
-	id := s.NextSnap
-	s.NextSnap++
-	s.Snaps[id] = s.Staged.Clone()
+// Snapshot through handle h: copies the (single, shared) staged state.
+func (s *Store) Snapshot(h int) int {
+	id := s.Next[h]
+	s.Next[h] = id + 1
+	if s.Snaps[h] == nil {
+		s.Snaps[h] = map[int]Map{}
+	}
+	s.Snaps[h][id] = s.Staged.Clone()
 	return id
 }
 
 // Restore returns false (and changes nothing) for an unknown id; a restored snapshot is consumed.
-func (s *Store) Restore(id int) bool {
-	m, ok := s.Snaps[id]
+func (s *Store) Restore(h, id int) bool {
+	m, ok := s.Snaps[h][id]
 	if !ok {
 		return false
 	}
 	s.Staged = m
-	delete(s.Snaps, id)
+	delete(s.Snaps[h], id)
 	return true
 }
 
-func (s *Store) DeleteSnapshot(id int) { delete(s.Snaps, id) }
+func (s *Store) DeleteSnapshot(h, id int) { delete(s.Snaps[h], id) }
+
+// Live returns the snapshot ids of handle h that can still be restored, ascending.
+func (s *Store) Live(h int) []int {
+	var ids []int
+	for id := range s.Snaps[h] {
+		ids = append(ids, id)
+	}
+	sort.Ints(ids)
+	return ids
+}
+
+// LiveTotal is the number of restorable snapshots over all handles.
+func (s *Store) LiveTotal() int {
+	n := 0
+	for _, m := range s.Snaps {
+		n += len(m)
+	}
+	return n
+}
+
+// DropHandle forgets a handle that is no longer used.
+func (s *Store) DropHandle(h int) {
+	delete(s.Snaps, h)
+	delete(s.Next, h)
+}
 
 // Commit makes the staged state the database contents and returns the previous contents. A fresh staged store starts
 // (snapshots belong to the old one).
 func (s *Store) Commit() Map {
 	prev := s.Committed
 	s.Committed = s.Staged.Clone()
-	s.Snaps = map[int]Map{}
-	s.NextSnap = 0
+	s.Snaps = map[int]map[int]Map{}
+	s.Next = map[int]int{}
 	return prev
 }
 
